@@ -821,6 +821,30 @@ func runC02(c *Ctx) {
 			}
 			return true
 		})
+		if !okF {
+			// equivalent form: `if err != nil { return false, false }; found = true` — decided on guards: where the GetAttr
+			// error is non-nil the function returns (false, …), and found is set true only where it is nil
+			okNon, okNil := false, true
+			for _, ga := range guardedActions(f, f.Decl.Body) {
+				errNil, errNon := false, false
+				for _, at := range ga.Atoms {
+					if be, ok := ast.Unparen(at.Expr).(*ast.BinaryExpr); ok && (be.Op == token.EQL || be.Op == token.NEQ) {
+						d := describeExprAt(f, be.X)
+						if d == "param#1.GetAttr(param#0,param#2)#1" {
+							isNil := (be.Op == token.EQL) != at.Neg
+							errNil, errNon = errNil || isNil, errNon || !isNil
+						}
+					}
+				}
+				if errNon && strings.HasPrefix(ga.Action, "return const:false") {
+					okNon = true
+				}
+				if strings.HasPrefix(ga.Action, "result#0 = const:true") && !errNil {
+					okNil = false
+				}
+			}
+			okF = okNon && okNil
+		}
 		c.check(okF, "dedup.found-means-present", f.ID, p.Pos(f.Decl.Pos()), "found <=> GetAttr of the blob path returned no error", "existsAndValidBlob no longer derives found from GetAttr(pth) succeeding")
 	}
 	// dedup: stored content is not rewritten on stores that report no checksum (shared with C15)
@@ -1221,6 +1245,12 @@ func runC03(c *Ctx) {
 			if cs.Fn.ID == rf.ID {
 				okK = true
 			}
+			// or through a helper of the same type that reader calls (keys resolution extracted)
+			for _, cs2 := range callersOf(p, cs.Fn.ID) {
+				if cs2.Fn.ID == rf.ID && strings.HasPrefix(cs.Fn.ID, "pkg/cafs.defaultFs.") {
+					okK = true
+				}
+			}
 		}
 		c.check(okK, "verify-coverage.root-checksum", rf.ID, p.Pos(rf.Decl.Pos()), "the reader obtains leaf keys from LeavesForHash", "defaultFs.reader no longer obtains leaf keys from LeavesForHash")
 		nr := p.Func("pkg/cafs.newReader")
@@ -1232,61 +1262,55 @@ func runC03(c *Ctx) {
 		}
 		c.check(okN, "verify-coverage.root-checksum", nr.ID, p.Pos(nr.Decl.Pos()), "newReader without preset keys obtains them from LeavesForHash", "newReader no longer falls back to LeavesForHash")
 	}
-	// (2) mismatch is an error
-	for _, m := range []struct{ fn, condHas string }{
-		{"pkg/cafs.chunkReader.verifyHash", "!="},
-		{"pkg/cafs.verifiedKeys", "!="},
-		{"pkg/cafs.LeafKeys", "bytes.Equal"},
-	} {
-		f := p.Func(m.fn)
+	// (2) mismatch is an error: in the guards of the function's returns, the atom comparing two Key values (or
+	// bytes.Equal on them) decides: every return reached where the keys differ is a failure, and some return is reached
+	// there (the form of the test — `!=` with an error body, `==` with an early success — is immaterial)
+	for _, fid := range []string{"pkg/cafs.chunkReader.verifyHash", "pkg/cafs.verifiedKeys", "pkg/cafs.LeafKeys"} {
+		f := p.Func(fid)
 		b := p.BodyOf(f)
 		info := f.Info()
-		// find the comparison if: cond is `a != b` on Key values or !bytes.Equal
-		found := false
-		okRet := true
-		ast.Inspect(f.Decl.Body, func(nd ast.Node) bool {
-			ifs, ok := nd.(*ast.IfStmt)
-			if !ok {
-				return true
-			}
-			isCmp := false
-			if be, ok := ast.Unparen(ifs.Cond).(*ast.BinaryExpr); ok && be.Op == token.NEQ && namedTypeID(info.TypeOf(be.X)) == "pkg/cafs.Key" {
-				isCmp = true
-			}
-			if u, ok := ast.Unparen(ifs.Cond).(*ast.UnaryExpr); ok && u.Op == token.NOT {
-				if call, ok := ast.Unparen(u.X).(*ast.CallExpr); ok && calleeID(info, call) == "bytes.Equal" {
-					isCmp = true
+		isKeyCmp := func(a guardAtom) (isCmp bool, differ bool) {
+			switch x := ast.Unparen(a.Expr).(type) {
+			case *ast.BinaryExpr:
+				if (x.Op == token.NEQ || x.Op == token.EQL) && namedTypeID(info.TypeOf(x.X)) == "pkg/cafs.Key" {
+					return true, (x.Op == token.NEQ) != a.Neg
+				}
+			case *ast.CallExpr:
+				if calleeID(info, x) == "bytes.Equal" {
+					return true, a.Neg
 				}
 			}
-			if !isCmp {
-				return true
+			return false, false
+		}
+		nDiffer, okRet := 0, true
+		var cmpExpr ast.Expr
+		for _, ga := range guardedActions(f, f.Decl.Body) {
+			ret, isRet := ga.Node.(*ast.ReturnStmt)
+			if !isRet {
+				continue
 			}
-			found = true
-			if l := len(ifs.Body.List); l == 0 {
-				okRet = false
-			} else if r, ok := ifs.Body.List[l-1].(*ast.ReturnStmt); !ok || b.classifyReturn(r) != retFailure {
-				okRet = false
+			for _, at := range ga.Atoms {
+				if isCmp, differ := isKeyCmp(at); isCmp {
+					cmpExpr = at.Expr
+					if differ {
+						nDiffer++
+						if b.classifyReturn(ret) != retFailure {
+							okRet = false
+						}
+					}
+				}
 			}
-			return true
-		})
-		c.check(found && okRet, "mismatch-is-error", m.fn, p.Pos(f.Decl.Pos()), "the mismatch branch returns a non-nil error", "the hash/checksum mismatch branch of "+m.fn+" does not end by returning an error: corrupted content passes as valid")
-	}
-	// verifyHash compares the key it was given with the recomputed one
-	{
-		f := p.Func("pkg/cafs.chunkReader.verifyHash")
-		info := f.Info()
-		okCmp := false
-		ast.Inspect(f.Decl.Body, func(nd ast.Node) bool {
-			if be, ok := nd.(*ast.BinaryExpr); ok && be.Op == token.NEQ && namedTypeID(info.TypeOf(be.X)) == "pkg/cafs.Key" {
-				x, y := describeExpr(f, be.X, 0), describeExpr(f, be.Y, 0)
+		}
+		c.check(nDiffer > 0 && okRet, "mismatch-is-error", fid, p.Pos(f.Decl.Pos()), "every return reached where the keys differ reports an error", "the hash/checksum mismatch of "+fid+" no longer ends in an error return (or the keys are no longer compared): corrupted content passes as valid")
+		if fid == "pkg/cafs.chunkReader.verifyHash" {
+			okCmp := false
+			if be, ok := ast.Unparen(cmpExpr).(*ast.BinaryExpr); ok {
+				x, y := describeExprAt(f, be.X), describeExprAt(f, be.Y)
 				want := "call:pkg/cafs.KeyFromBytes(param#1,recv.leafSize,conv:uint64(param#2),param#3)#0"
-				if x == "param#0" && y == want || y == "param#0" && x == want {
-					okCmp = true
-				}
+				okCmp = x == "param#0" && y == want || y == "param#0" && x == want
 			}
-			return true
-		})
-		c.check(okCmp, "mismatch-is-error", f.ID+":compares", p.Pos(f.Decl.Pos()), "verifyHash compares the expected key with KeyFromBytes(data, leafSize, offset, isLast)", "verifyHash no longer compares its key argument with KeyFromBytes(data, r.leafSize, offset, isLastNode)")
+			c.check(okCmp, "mismatch-is-error", f.ID+":compares", p.Pos(f.Decl.Pos()), "verifyHash compares the expected key with KeyFromBytes(data, leafSize, offset, isLast)", "verifyHash no longer compares its key argument with KeyFromBytes(data, r.leafSize, offset, isLastNode)")
+		}
 	}
 	// (3) defaults
 	{
